@@ -113,7 +113,7 @@ func c05Case(sc *streamCase, idx int, st *Stats) *Violation {
 		}
 	}
 	// a returned runner is usable: a few steps must not panic (scripts that could loop for ever are not stepped)
-	if h != nil && h.dr != nil && !strings.Contains(string(sc.Readers[0].bytes()), "jump") {
+	if h != nil && h.dr != nil && len(sc.Readers) > 0 && !strings.Contains(string(sc.Readers[0].bytes()), "jump") {
 		for k := 0; k < 3; k++ {
 			r := h.Next(0)
 			if r.Kind == rPanic {
